@@ -72,6 +72,7 @@ statement; distinct = distinct hash of (kind, program, sources, environment or s
             "probe.b.failed_step_then_success",
             "probe.b.tree_at_recycled_address",
             "probe.b.other_file_on_same_thread",
+            "probe.b.globals_vary_between_steps",
             "probe.c.switch_inside_execution",
             "probe.c.cancel_other",
             "probe.c.multi_worker_runs",
@@ -224,6 +225,9 @@ pub struct Inputs {
     pub text: String,
     pub sources: Vec<String>,
     pub globs: Globs,
+    /// alternative supplies of the globals for individual steps of a history or tasks of a
+    /// worker (index 0 is `globs`): a defaulted global supplied / omitted, other values
+    pub alt_globs: Vec<Globs>,
     /// structural twins of the program (same shapes, different literals, failing at run time):
     /// other files loaded, executed and dropped on the same thread during a history
     pub variants: Vec<String>,
@@ -279,8 +283,8 @@ pub fn make_inputs(seed: u64, tier: Tier, ticks: bool) -> Inputs {
         }
     }
     match r.below(10) {
-        0 => Inputs { kind: "unused-captures".into(), text: unused_captures_program(&mut r), sources, globs: vec![], variants: vec![] },
-        1 | 2 => Inputs { kind: "multi-fault".into(), text: multi_fault_program(&mut r), sources, globs: vec![], variants: vec![] },
+        0 => Inputs { kind: "unused-captures".into(), text: unused_captures_program(&mut r), sources, globs: vec![], alt_globs: vec![vec![]], variants: vec![] },
+        1 | 2 => Inputs { kind: "multi-fault".into(), text: multi_fault_program(&mut r), sources, globs: vec![], alt_globs: vec![vec![]], variants: vec![] },
         k => {
             let cfg = gen::GenCfg {
                 ticks,
@@ -290,13 +294,32 @@ pub fn make_inputs(seed: u64, tier: Tier, ticks: bool) -> Inputs {
             let g = gen::gen_program(&mut Rng::sub(seed, "prog"), &cfg);
             let globs = gen::supply_globals(&mut Rng::sub(seed, "globals"), &g.needed_globals);
             let variants = (1..=3u32).map(|k| gen::twin(&g.prog, k, true).render()).collect();
-            Inputs { kind: "generated".into(), text: g.prog.render(), sources, globs, variants }
+            // alternative supplies: toggle every defaulted global, change a value
+            let mut alt_globs = vec![globs.clone()];
+            let defaulted: Vec<String> = g.prog.globals.iter().filter(|d| d.default.is_some()).map(|d| d.name.clone()).collect();
+            if !defaulted.is_empty() {
+                let mut a = globs.clone();
+                for d in &defaulted {
+                    if a.iter().any(|(k, _)| k == d) {
+                        a.retain(|(k, _)| k != d);
+                    } else {
+                        a.push((d.clone(), simrun::GVal::Str("supplied".into())));
+                    }
+                }
+                alt_globs.push(a);
+            }
+            if let Some(i) = globs.iter().position(|(_, v)| matches!(v, simrun::GVal::Str(_))) {
+                let mut a = globs.clone();
+                a[i].1 = simrun::GVal::Str("another value".into());
+                alt_globs.push(a);
+            }
+            Inputs { kind: "generated".into(), text: g.prog.render(), sources, globs, alt_globs, variants }
         }
     }
 }
 
 fn inputs_json(i: &Inputs) -> J {
-    json!({"kind": i.kind, "tsg": i.text, "sources": i.sources, "globals": simrun::globs_json(&i.globs), "variants": i.variants})
+    json!({"kind": i.kind, "tsg": i.text, "sources": i.sources, "globals": simrun::globs_json(&i.globs), "alt_globals": i.alt_globs.iter().map(simrun::globs_json).collect::<Vec<_>>(), "variants": i.variants})
 }
 
 fn inputs_from_json(j: &J) -> Inputs {
@@ -308,6 +331,14 @@ fn inputs_from_json(j: &J) -> Inputs {
             .map(|a| a.iter().filter_map(|x| x.as_str().map(|s| s.to_string())).collect())
             .unwrap_or_default(),
         globs: simrun::globs_from_json(&j["globals"]),
+        alt_globs: {
+            let v: Vec<Globs> = j["alt_globals"].as_array().map(|a| a.iter().map(simrun::globs_from_json).collect()).unwrap_or_default();
+            if v.is_empty() {
+                vec![simrun::globs_from_json(&j["globals"])]
+            } else {
+                v
+            }
+        },
         variants: j["variants"]
             .as_array()
             .map(|a| a.iter().filter_map(|x| x.as_str().map(|s| s.to_string())).collect())
@@ -378,7 +409,7 @@ fn check_a(inp: &Inputs, lazy: bool, envs: &[Env]) -> Result<(AStats, Option<(Fo
 
 #[derive(Clone, Debug, PartialEq, Eq)]
 pub enum Step {
-    Exec { tree: usize, lazy: bool, cancel_at: Option<u64> },
+    Exec { tree: usize, lazy: bool, cancel_at: Option<u64>, gv: usize },
     Reparse { tree: usize },
     Reload,
     /// load another file (a structural twin), execute it on the same thread, drop it
@@ -387,7 +418,7 @@ pub enum Step {
 
 fn step_json(s: &Step) -> J {
     match s {
-        Step::Exec { tree, lazy, cancel_at } => json!({"op": "exec", "tree": tree, "lazy": lazy, "cancel_at": cancel_at}),
+        Step::Exec { tree, lazy, cancel_at, gv } => json!({"op": "exec", "tree": tree, "lazy": lazy, "cancel_at": cancel_at, "globals_variant": gv}),
         Step::Reparse { tree } => json!({"op": "reparse", "tree": tree}),
         Step::Reload => json!({"op": "reload"}),
         Step::OtherFile { variant, tree, lazy } => json!({"op": "other-file", "variant": variant, "tree": tree, "lazy": lazy}),
@@ -400,6 +431,7 @@ fn step_from_json(j: &J) -> Step {
             tree: j["tree"].as_u64().unwrap_or(0) as usize,
             lazy: j["lazy"].as_bool().unwrap_or(false),
             cancel_at: j["cancel_at"].as_u64(),
+            gv: j["globals_variant"].as_u64().unwrap_or(0) as usize,
         },
         "reparse" => Step::Reparse { tree: j["tree"].as_u64().unwrap_or(0) as usize },
         "other-file" => Step::OtherFile {
@@ -411,7 +443,7 @@ fn step_from_json(j: &J) -> Step {
     }
 }
 
-fn gen_steps(r: &mut Rng, ntrees: usize, nvariants: usize, max: usize) -> Vec<Step> {
+fn gen_steps(r: &mut Rng, ntrees: usize, nvariants: usize, nglobs: usize, max: usize) -> Vec<Step> {
     let n = r.range(2, max);
     (0..n)
         .map(|_| match r.below(12) {
@@ -422,6 +454,7 @@ fn gen_steps(r: &mut Rng, ntrees: usize, nvariants: usize, max: usize) -> Vec<St
                 tree: r.below(ntrees),
                 lazy: r.chance(1, 2),
                 cancel_at: if r.chance(1, 4) { Some(1 + r.below(40) as u64) } else { None },
+                gv: if r.chance(1, 2) { 0 } else { r.below(nglobs.max(1)) },
             },
         })
         .collect()
@@ -434,13 +467,14 @@ struct BStats {
     failed_then_ok: u64,
     recycled: u64,
     other_files: u64,
+    globals_varied: bool,
     statements: bool,
     transcript: u64,
     discarded: bool,
 }
 
-fn isolated(inp: &Inputs, tree: usize, lazy: bool, cancel_at: Option<u64>) -> Result<LoadExec, String> {
-    load_exec(&inp.text, &inp.sources[tree], &inp.globs, lazy, cancel_at, &Env::control())
+fn isolated(inp: &Inputs, tree: usize, lazy: bool, cancel_at: Option<u64>, gv: usize) -> Result<LoadExec, String> {
+    load_exec(&inp.text, &inp.sources[tree], &inp.alt_globs[gv.min(inp.alt_globs.len() - 1)], lazy, cancel_at, &Env::control())
 }
 
 fn check_b(inp: &Inputs, steps: &[Step], env: &Env) -> Result<(BStats, Option<Found>), String> {
@@ -449,9 +483,9 @@ fn check_b(inp: &Inputs, steps: &[Step], env: &Env) -> Result<(BStats, Option<Fo
     let mut refs: Vec<Option<LoadExec>> = Vec::new();
     for s in steps {
         refs.push(match s {
-            Step::Exec { tree, lazy, cancel_at } => {
+            Step::Exec { tree, lazy, cancel_at, gv } => {
                 st.executions += 1;
-                Some(isolated(inp, *tree, *lazy, *cancel_at)?)
+                Some(isolated(inp, *tree, *lazy, *cancel_at, *gv)?)
             }
             Step::OtherFile { variant, tree, lazy } => {
                 st.executions += 1;
@@ -479,8 +513,11 @@ fn check_b(inp: &Inputs, steps: &[Step], env: &Env) -> Result<(BStats, Option<Fo
         };
         let ast0 = canon::cast(&file);
         let fns = simrun::functions();
-        let vars = simrun::make_variables(&inp.globs, &[]);
-        let vars0 = simrun::variables_snapshot(&vars);
+        // one caller-side variable set per supply variant, all kept for the whole history
+        let all_vars: Vec<tree_sitter_graph::Variables> = inp.alt_globs.iter().map(|g| simrun::make_variables(g, &[])).collect();
+        let all_vars0: Vec<Vec<(String, String)>> = all_vars.iter().map(simrun::variables_snapshot).collect();
+        let vars = &all_vars[0];
+        let mut gvs_used = std::collections::BTreeSet::new();
         let mut trees: Vec<Option<tree_sitter::Tree>> = inp.sources.iter().map(|s| Some(simrun::parse_python(s))).collect();
         let mut root_ids: Vec<usize> = trees.iter().map(|t| t.as_ref().unwrap().root_node().id()).collect();
         let mut seen_ids: std::collections::BTreeSet<usize> = Default::default();
@@ -520,7 +557,7 @@ fn check_b(inp: &Inputs, steps: &[Step], env: &Env) -> Result<(BStats, Option<Fo
                     };
                     let flag = SimFlag::counting();
                     simrun::log_clear();
-                    let out = simrun::execute(&other, trees[*tree].as_ref().unwrap(), &inp.sources[*tree], *lazy, &fns, &vars, &flag);
+                    let out = simrun::execute(&other, trees[*tree].as_ref().unwrap(), &inp.sources[*tree], *lazy, &fns, vars, &flag);
                     simrun::log_clear();
                     drop(other);
                     st.executions += 1;
@@ -537,13 +574,20 @@ fn check_b(inp: &Inputs, steps: &[Step], env: &Env) -> Result<(BStats, Option<Fo
                         }));
                     }
                 }
-                Step::Exec { tree, lazy, cancel_at } => {
+                Step::Exec { tree, lazy, cancel_at, gv } => {
                     let flag = match cancel_at {
                         Some(k) => SimFlag::failing_from(*k),
                         None => SimFlag::counting(),
                     };
+                    let gv = (*gv).min(all_vars.len() - 1);
+                    gvs_used.insert(gv);
+                    if gvs_used.len() > 1 {
+                        st.globals_varied = true;
+                    }
+                    let vars = &all_vars[gv];
+                    let vars0 = &all_vars0[gv];
                     simrun::log_clear();
-                    let out = simrun::execute(&file, trees[*tree].as_ref().unwrap(), &inp.sources[*tree], *lazy, &fns, &vars, &flag);
+                    let out = simrun::execute(&file, trees[*tree].as_ref().unwrap(), &inp.sources[*tree], *lazy, &fns, vars, &flag);
                     let log = simrun::log_take();
                     st.executions += 1;
                     st.statements |= !log.is_empty();
@@ -572,8 +616,8 @@ fn check_b(inp: &Inputs, steps: &[Step], env: &Env) -> Result<(BStats, Option<Fo
                     if log != iso.log {
                         return (st, Some(Found { class: "event-log-differs", detail: format!("step {}: poll/tick sequence differs from the isolated run", i) }));
                     }
-                    let now = simrun::variables_snapshot(&vars);
-                    if now != vars0 {
+                    let now = simrun::variables_snapshot(vars);
+                    if &now != vars0 {
                         return (st, Some(Found { class: "globals-modified", detail: format!("step {}: caller's variables changed: {:?} -> {:?}", i, vars0, now) }));
                     }
                     if canon::cast(&file) != ast0 {
@@ -599,6 +643,7 @@ pub struct Task {
     pub lazy: bool,
     pub cancel_at: Option<u64>,
     pub reload: bool,
+    pub gv: usize,
 }
 
 #[derive(Clone, Debug)]
@@ -614,7 +659,7 @@ fn plan_json(p: &Plan) -> J {
         "strategy": p.strategy.name(),
         "sched_seed": p.sched_seed,
         "worker_hash": p.worker_hash,
-        "workers": p.workers.iter().map(|w| w.iter().map(|t| json!({"tree": t.tree, "lazy": t.lazy, "cancel_at": t.cancel_at, "reload": t.reload})).collect::<Vec<_>>()).collect::<Vec<_>>(),
+        "workers": p.workers.iter().map(|w| w.iter().map(|t| json!({"tree": t.tree, "lazy": t.lazy, "cancel_at": t.cancel_at, "reload": t.reload, "globals_variant": t.gv})).collect::<Vec<_>>()).collect::<Vec<_>>(),
     })
 }
 
@@ -636,6 +681,7 @@ fn plan_from_json(j: &J) -> Plan {
                                         lazy: t["lazy"].as_bool().unwrap_or(false),
                                         cancel_at: t["cancel_at"].as_u64(),
                                         reload: t["reload"].as_bool().unwrap_or(false),
+                                        gv: t["globals_variant"].as_u64().unwrap_or(0) as usize,
                                     })
                                     .collect()
                             })
@@ -647,7 +693,7 @@ fn plan_from_json(j: &J) -> Plan {
     }
 }
 
-fn gen_plan(r: &mut Rng, ntrees: usize) -> Plan {
+fn gen_plan(r: &mut Rng, ntrees: usize, nglobs: usize) -> Plan {
     let n = r.range(2, 4);
     let workers = (0..n)
         .map(|_| {
@@ -658,6 +704,7 @@ fn gen_plan(r: &mut Rng, ntrees: usize) -> Plan {
                     lazy: r.chance(1, 2),
                     cancel_at: if r.chance(1, 4) { Some(1 + r.below(30) as u64) } else { None },
                     reload: r.chance(1, 6),
+                    gv: if r.chance(1, 2) { 0 } else { r.below(nglobs.max(1)) },
                 })
                 .collect()
         })
@@ -700,7 +747,7 @@ fn check_c(inp: &Inputs, plan: &Plan, env: &Env) -> Result<(CStats, Option<Found
     for w in &plan.workers {
         let mut v = Vec::new();
         for t in w {
-            let r = isolated(inp, t.tree, t.lazy, t.cancel_at)?;
+            let r = isolated(inp, t.tree, t.lazy, t.cancel_at, t.gv)?;
             st.executions += 1;
             if r.load.is_err() || matches!(r.outcome, Some(Outcome::Panic(_))) {
                 st.discarded = true;
@@ -743,7 +790,7 @@ fn check_c(inp: &Inputs, plan: &Plan, env: &Env) -> Result<(CStats, Option<Found
                             let sp: *const Sched = sched;
                             // SAFETY: the hook is removed by FinishGuard before `sched` goes away
                             simrun::set_yield_hook(Some(Box::new(move |label: &str| unsafe { (*sp).yield_point(wi, label) })));
-                            let vars = simrun::make_variables(&inp.globs, &[]);
+                            let all_vars: Vec<tree_sitter_graph::Variables> = inp.alt_globs.iter().map(|g| simrun::make_variables(g, &[])).collect();
                             let mut out = Vec::new();
                             // each worker parses its own trees: allocations interleave too
                             let mut trees: Vec<Option<tree_sitter::Tree>> = inp.sources.iter().map(|_| None).collect();
@@ -768,7 +815,8 @@ fn check_c(inp: &Inputs, plan: &Plan, env: &Env) -> Result<(CStats, Option<Found
                                     None => SimFlag::counting(),
                                 };
                                 simrun::log_clear();
-                                let o = simrun::execute(file, trees[t.tree].as_ref().unwrap(), &inp.sources[t.tree], t.lazy, fns, &vars, &flag);
+                                let vars = &all_vars[t.gv.min(all_vars.len() - 1)];
+                                let o = simrun::execute(file, trees[t.tree].as_ref().unwrap(), &inp.sources[t.tree], t.lazy, fns, vars, &flag);
                                 let log = simrun::log_take();
                                 out.push((o, log, note));
                             }
@@ -833,7 +881,7 @@ fn check_c(inp: &Inputs, plan: &Plan, env: &Env) -> Result<(CStats, Option<Found
     // isolated references again, after: nothing may have been polluted over time
     for (wi, w) in plan.workers.iter().enumerate() {
         for (ti, t) in w.iter().enumerate() {
-            let r = isolated(inp, t.tree, t.lazy, t.cancel_at)?;
+            let r = isolated(inp, t.tree, t.lazy, t.cancel_at, t.gv)?;
             st.executions += 1;
             if r != refs[wi][ti] {
                 return Ok((st, Some(Found { class: "pollution-over-time", detail: format!("isolated run of worker {} task {} changed after the concurrent phase", wi, ti) })));
@@ -1005,7 +1053,7 @@ pub fn run_shard(ctx: &ShardCtx, rep: &mut Report) {
                 }
             }
             "b" => {
-                let steps = gen_steps(&mut r, inp.sources.len(), inp.variants.len(), if ctx.tier == Tier::Quick { 8 } else { 12 });
+                let steps = gen_steps(&mut r, inp.sources.len(), inp.variants.len(), inp.alt_globs.len(), if ctx.tier == Tier::Quick { 8 } else { 12 });
                 let mut env = random_env(&mut r);
                 if r.chance(1, 2) {
                     env.policy = Policy::Reuse;
@@ -1025,6 +1073,9 @@ pub fn run_shard(ctx: &ShardCtx, rep: &mut Report) {
                         rep.add("probe.b.failed_step_then_success", st.failed_then_ok);
                         rep.add("probe.b.tree_at_recycled_address", st.recycled);
                         rep.add("probe.b.other_file_on_same_thread", st.other_files);
+                        if st.globals_varied {
+                            rep.count("probe.b.globals_vary_between_steps");
+                        }
                         if env.lifo_heap {
                             rep.count("fault.heap_reuse.configured");
                             let (_, reused) = crate::heap::stats();
@@ -1064,7 +1115,7 @@ pub fn run_shard(ctx: &ShardCtx, rep: &mut Report) {
                 }
             }
             _ => {
-                let plan = gen_plan(&mut r, inp.sources.len());
+                let plan = gen_plan(&mut r, inp.sources.len(), inp.alt_globs.len());
                 let env = random_env(&mut r);
                 match check_c(&inp, &plan, &env) {
                     Err(m) => rep.harness_error(format!("C12c run {}: {}", i, m)),
